@@ -314,9 +314,9 @@ Relative Weighted Least-Squares Results:
         a, b = self._a_b   
         df = a.df 
         
-        u = math.sqrt( s_y*self._ssr/df )
+        u = s_y*math.sqrt( self._ssr/df )
         
-        noise = ureal(0,u,df,label=s_label)
+        noise = ureal(0,u,df,label=s_label,independent=False)
 
         append_real_ensemble(a,noise)
                   
@@ -416,7 +416,7 @@ Weighted Least-Squares Results:
         a, b = self._a_b   
         df = a.df 
         
-        noise = ureal(0,s_y,df,label=s_label)
+        noise = ureal(0,s_y,df,label=s_label,independent=False)
 
         append_real_ensemble(a,noise)
                   
